@@ -53,8 +53,6 @@ func pathJSON(p combinator.Path) vt.M {
 	m["exp"] = int(p.Metadata.Expiry.Sub(base) / time.Millisecond)
 	m["expfrac"] = int(p.Metadata.Expiry.Sub(base) % time.Millisecond)
 	m["w"] = p.Weight
-	m["dst"] = segs.IAStr(p.Dst)
-	m["fp"] = hex.EncodeToString([]byte(p.Fingerprint))
 	return m
 }
 
@@ -103,6 +101,7 @@ func main() {
 	pairs := flag.Int("pairs", 4, "src/dst pairs per topology")
 	maxSegs := flag.Int("maxsegs", 6, "max up / down segments per call")
 	maxCores := flag.Int("maxcores", 8, "max core segments per call")
+	withTopo := flag.Bool("topo", false, "log the topology description with every case (debugging)")
 	flag.Parse()
 	w := vt.NewWriter(*out)
 	defer w.Close()
@@ -159,7 +158,11 @@ func main() {
 			}
 			all := rng.Intn(4) == 0
 			caseNo++
-			w.Emit(vt.M{"ev": "reset", "case": caseNo, "topo": t.Describe()})
+			rs := vt.M{"ev": "reset", "case": caseNo, "topology": i}
+			if *withTopo {
+				rs["topo"] = t.Describe()
+			}
+			w.Emit(rs)
 			ev := vt.M{"ev": "combine", "src": segs.IAStr(src), "dst": segs.IAStr(dst), "all": all,
 				"ups": segs.SegsJSON(ups, base), "cores": segs.SegsJSON(cs, base),
 				"downs": segs.SegsJSON(downs, base)}
